@@ -141,7 +141,10 @@ func atomKey(v ssa.Value) (string, bool) {
 	return "", false
 }
 
-func linearize(v ssa.Value) linForm {
+func linearize(v ssa.Value) linForm { return linearizeWith(v, false) }
+
+// linearizeWith: loose makes every sub-expression that is not linear an opaque atom instead of failing.
+func linearizeWith(v ssa.Value, loose bool) linForm {
 	l := linForm{terms: map[string]int64{}, ok: true}
 	var add func(v ssa.Value, coef int64)
 	add = func(v ssa.Value, coef int64) {
@@ -190,6 +193,10 @@ func linearize(v ssa.Value) linForm {
 		}
 		if k, ok := atomKey(v); ok {
 			l.terms[k] += coef
+			return
+		}
+		if loose {
+			l.terms["val:"+v.Name()] += coef
 			return
 		}
 		l.ok = false
@@ -1123,8 +1130,8 @@ func ruleR05_4(p *Program, r *Report) {
 	}
 	n := 0
 	for _, fn := range p.Funcs() {
-		if fn.Pkg != p.Pkg(flateRel) || fn.Name() == "reset" {
-			continue
+		if fn.Pkg != p.Pkg(flateRel) || fn.Name() == "reset" || (fn.Name() == "Reset" && fn.Signature.Recv() != nil) {
+			continue // a reset starts a new stream: whatever the buffer held belongs to the old one
 		}
 		lab := newLabeler()
 		for _, b := range fn.Blocks {
@@ -1147,7 +1154,7 @@ func ruleR05_4(p *Program, r *Report) {
 				n++
 				key := shortFn(fn) + "|" + lab.get("const store ."+fname)
 				empty := false
-				for _, f := range dominatingFacts(st) {
+				for _, f := range append(dominatingFacts(st), p.helperPostFacts(st)...) {
 					if f.Y == nil {
 						continue
 					}
